@@ -1,5 +1,6 @@
 import HsVerif.Props.C06
 import HsVerif.Props.C01Ledger
+import HsVerif.Props.C01FastSys
 /-! C06, the cross-replica clause: "for any two honest replicas the executed command sequences are
 prefix-related" — composed from C01's ledger theorem for the system of replica models
 (Props/C01Ledger.lean: the commit logs of two honest replicas are prefix-related) and C06's
@@ -29,6 +30,17 @@ theorem executed_prefix_related (k : Keys) (C : SysCfg) (hk : KeysOK k) (hn : 1 
     execFilter [] (stream cmdsOf ((sysRunL k C acts).2 i)) <+: execFilter [] (stream cmdsOf ((sysRunL k C acts).2 j)) ∨
     execFilter [] (stream cmdsOf ((sysRunL k C acts).2 j)) <+: execFilter [] (stream cmdsOf ((sysRunL k C acts).2 i)) := by
   rcases ledgers_prefix_related k C hk hn hf hsch hrl blk acts hacts hca i j hi hj with h | h
+  · exact Or.inl (executed_prefix _ _ (stream_prefix cmdsOf _ _ h))
+  · exact Or.inr (executed_prefix _ _ (stream_prefix cmdsOf _ _ h))
+
+/-- the same for Fast-HotStuff (through `C01FastSys.ledgers_prefix_related_fast`; content addressing `CA`) -/
+theorem executed_prefix_related_fast (k : Keys) (C : SysCfg) (hk : KeysOK k) (hn : 1 ≤ C.n) (hf : FewFaulty C)
+    (hsch : C.scheme ≠ .bls12) (hrl : C.rules = .fast) (blk : Hash → Block) (acts : List SysAct)
+    (hacts : ∀ a ∈ acts, a.noCommit = true) (hca : CA (sysRunL k C acts).1 blk)
+    (cmdsOf : Block → List Cmd) (i j : Nat) (hi : i ∈ C.honest) (hj : j ∈ C.honest) :
+    execFilter [] (stream cmdsOf ((sysRunL k C acts).2 i)) <+: execFilter [] (stream cmdsOf ((sysRunL k C acts).2 j)) ∨
+    execFilter [] (stream cmdsOf ((sysRunL k C acts).2 j)) <+: execFilter [] (stream cmdsOf ((sysRunL k C acts).2 i)) := by
+  rcases HsVerif.Props.C01FastSys.ledgers_prefix_related_fast k C hk hn hf hsch hrl blk acts hacts hca i j hi hj with h | h
   · exact Or.inl (executed_prefix _ _ (stream_prefix cmdsOf _ _ h))
   · exact Or.inr (executed_prefix _ _ (stream_prefix cmdsOf _ _ h))
 
